@@ -152,6 +152,7 @@ func (s *MultipartReply) UnmarshalBinary(data []byte) error {
 		err = repl.UnmarshalBinary(data[n:])
 		if err != nil {
 			log.Printf("Error parsing stats reply")
+			return err
 		}
 		if repl.Len() == 0 {
 			return fmt.Errorf("decoded a stats record of length 0")
